@@ -84,6 +84,9 @@ func (g *Gen) modItem(item string, env *Env) ([]string, string, error) {
 		}
 		for i := 0; i < s.NumFields(); i++ {
 			if s.Field(i).Name() == x.Name {
+				if k, esc := g.eng.escapingField(st, i); esc {
+					return []string{g.cellRegion(s.Field(i).Type()).Key}, fmt.Sprintf("(paddr %s %d)", bt, k), nil
+				}
 				return []string{g.fieldRegion(st, i).Key}, bt, nil
 			}
 		}
@@ -179,7 +182,7 @@ func (g *Gen) frameCheck(st *BState, r *Region, ref string, fresh bool, pos toke
 		}
 	}
 	if ref != "" {
-		alts = append(alts, fmt.Sprintf("(not (select %s %s))", g.entryAlloc, ref))
+		alts = append(alts, fmt.Sprintf("(not (select %s %s))", g.entryAlloc, g.ownR(r, ref)))
 	}
 	goal := "false"
 	if len(alts) > 0 {
@@ -564,10 +567,10 @@ func (g *Gen) callStatic(st *BState, in ssa.Instruction, callee *ssa.Function, a
 			for _, t := range tg {
 				ne = append(ne, fmt.Sprintf("(not (= r %s))", t))
 			}
-			g.assume(st, fmt.Sprintf("(forall ((r Int)) (! (=> (or (and (select %s r) %s) %s) (= (select %s r) (select %s r))) :pattern ((select %s r))))", alPre, strings.Join(ne, " "), g.notFreshOf(r, post), n, old, n))
+			g.assume(st, fmt.Sprintf("(forall ((r Int)) (! (=> (or (and (select %s %s) %s) %s) (= (select %s r) (select %s r))) :pattern ((select %s r))))", alPre, g.ownR(r, "r"), strings.Join(ne, " "), g.notFreshOf(r, post), n, old, n))
 			g.callFrameCheck(st, r, tg, in.Pos())
 		case !ws[k]:
-			g.assume(st, fmt.Sprintf("(forall ((r Int)) (! (=> (or (select %s r) %s) (= (select %s r) (select %s r))) :pattern ((select %s r))))", alPre, g.notFreshOf(r, post), n, old, n))
+			g.assume(st, fmt.Sprintf("(forall ((r Int)) (! (=> (or (select %s %s) %s) (= (select %s r) (select %s r))) :pattern ((select %s r))))", alPre, g.ownR(r, "r"), g.notFreshOf(r, post), n, old, n))
 		default:
 			g.callFrameCheck(st, r, []string{"*"}, in.Pos())
 		}
@@ -671,7 +674,7 @@ func (g *Gen) callFrameCheck(st *BState, r *Region, calleeTargets []string, pos 
 			for _, t := range mine {
 				alts = append(alts, fmt.Sprintf("(= %s %s)", ct, t))
 			}
-			alts = append(alts, fmt.Sprintf("(not (select %s %s))", g.entryAlloc, ct))
+			alts = append(alts, fmt.Sprintf("(not (select %s %s))", g.entryAlloc, g.ownR(r, ct)))
 		}
 		goal := "false"
 		if len(alts) > 0 {
@@ -1146,7 +1149,7 @@ func (g *Gen) notFreshOf(r *Region, post Heap) string {
 	if r.Kind == "field" && r.StructTag > 0 {
 		return fmt.Sprintf("(not (select %s r)) (not (= (rtype r) %d))", alPost, r.StructTag)
 	}
-	return fmt.Sprintf("(not (select %s r))", alPost)
+	return fmt.Sprintf("(not (select %s %s))", alPost, g.ownR(r, "r"))
 }
 
 func (g *Gen) unconstrainedResults(st *BState, sig *types.Signature, v ssa.Value) {
@@ -1355,4 +1358,20 @@ func (g *Gen) callSiteObls(st *BState, in ssa.Instruction, callee *ssa.Function,
 		}
 		g.addObl(st, "A", anchor+":"+cl.Name, pos, g.clauseProps(cl, g.allProps()), t, cl.Src)
 	}
+}
+
+// ownR: the reference whose allocation decides whether address ref of region r exists: the address
+// itself, or -- for the cells of a type some struct field of which has its address taken -- its owner.
+func (g *Gen) ownR(r *Region, ref string) string {
+	if r != nil && r.Kind == "cell" && g.eng.escCells[r.Key] {
+		return "(own " + ref + ")"
+	}
+	return ref
+}
+
+func (g *Gen) ownT(t types.Type, ref string) string {
+	if p, ok := t.Underlying().(*types.Pointer); ok && g.eng.escCells["C."+mangle(typeKey(p.Elem().Underlying()))] {
+		return "(own " + ref + ")"
+	}
+	return ref
 }
